@@ -259,6 +259,8 @@ def directed(rng):
         # the context of a callback ends just after the reader has handed it its reply (at the reader's log line there): the reply it is
         add('cb-reply-then-ctxend-%d' % v, P, [dict(a='callback', c='cbA'), D, dict(a='logcancel', kind='Received response for callback', c='cbA'), S(reply(1, v)), D,
                                               dict(a='callback', c='cbC'), D, S(reply(2, v + 1)), D])
+        # a reply whose id is the string spelling of an outstanding callback's number is a reply to nobody: dropped, the callback waits on
+        add('cb-reply-string-id-%d' % v, P, [dict(a='callback', c='cbA'), D, S(reply(101, v)), D] + ([S(reply(101, v + 1), call(1)), D, hret('m2.1'), D] if v else []) + [S(reply(1, v)), D])
         add('cb-note-%d' % v, P, [S(note()), D, dict(a='callback', c='cbA', **{'from': 'm1.1'}), S(call(1)), D, S(reply(1, v)), D, hret('m1.1'), D, hret('m2.1'), D])
         add('cb-two-%d' % v, P, [dict(a='callback', c='cbA'), dict(a='callback', c='cbB'), D, S(reply(2, v)), D, S(reply(1)), D])
         add('cb-stop-%d' % v, P, [dict(a='callback', c='cbA'), D, dict(a='stop'), D, dict(a='callback', c='cbB'), dict(a='notify'), D])
